@@ -79,6 +79,8 @@ def run(ctx) -> None:
            'that is not declared BOOLEAN', 2)
   ctx.rule('R8', 'grid values are decoder output or exact enumerations of the config (no unclamped transcendental arithmetic)', 3)
   ctx.import_rules('C12', {'R6'}, 'R7', 'suggestions are produced for the study of the request: the service keeps no policy (and no search space) between requests')
+  ctx.import_rules('C07', {'R8'}, 'R10', 'the trials handed to a worker are the trials of its own study: exact key filters in both datastores')
+  ctx.import_rules('C14', {'R6'}, 'R11', 'no process-wide cache of per-study objects (converters, designers) in the suggestion path')
   mi = ctx.index.module_of_file(C15.CORE)
   C15.r3_decoder(_Relabel(ctx, 'R1'), mi)
   hosted = r2_factory(ctx)
